@@ -46,7 +46,7 @@ SpecialForms == {"def", "let", "quote", "quasiquote", "quasiquoteexpand", "defma
 
 \* builtins that need the evaluator or the state
 StateNames == {"trace!", "throw", "atom", "deref", "reset!", "swap!", "apply", "map", "eval",
-               "update", "update-in", "raise!", "boom!", "boom-str!", "rawraise!", "rawboom!", "rawboom-str!", "go-error", "error-string", "unwrap-error", "panic", "depth!", "future-call",
+               "update", "update-in", "raise!", "boom!", "boom-str!", "rawraise!", "rawboom!", "rawboom-str!", "go-error", "error-string", "unwrap-error", "panic", "cancel!", "depth!", "future-call",
                "sleep", "future-done?", "future-cancelled?", "future-cancel"}
 BuiltinNames == PureNames \cup StateNames
 
@@ -296,6 +296,8 @@ CallBuiltin(name, a, st) ==
                          ELSE IF a[1].t = "err" /\ a[1].s = "user"
                               THEN R("err", Mk("err", 0, "user", <<a[1].xs[1], StrV("wrapped")>>, NoMap), st)
                          ELSE IF a[1].t = "err" THEN R("err", a[1], st) ELSE R("thr", a[1], st)
+    \* the probe that ends the context of the running evaluation: what follows is C07's subject
+    [] name = "cancel!" -> R("unspec", NilV, st)
     [] name = "raise!" -> R("err", ErrV("raise"), st)
     [] name = "boom!" -> R("err", ErrV("boom"), st)
     \* a Go panic with a NON-error value surfaces as that value thrown (binder convention)
